@@ -68,12 +68,13 @@ def cases(rng, tier):
     # one event per zone and memtables of 33..45 events: the merged output of one type exceeds 64 zones in a
     # single batch (size thresholds inside the merge / zone writer)
     for j in range(1 if tier == "quick" else 20):
-        cfg = {"fill_factor": rng.range(33, 45), "event_per_zone": 1, "segments_per_merge": 2}
+        # (merged zones of level 1 hold twice the events of a level-0 zone: 130+ events of the type are needed)
+        cfg = {"fill_factor": rng.range(68, 80), "event_per_zone": 1, "segments_per_merge": 2}
         ntypes, nctx = rng.range(1, 2), rng.range(1, 3)
         cap = cfg["fill_factor"]
         ops = []
         for s_ in range(rng.choice([2, 2, 4])):
-            ops += [("S", 0 if rng.chance(9, 10) else rng.below(ntypes), rng.below(nctx)) for _ in range(cap)]
+            ops += [("S", 0 if rng.chance(29, 30) else rng.below(ntypes), rng.below(nctx)) for _ in range(cap)]
         ops += [("O",), ("C",), ("O",)]
         if rng.chance(1, 2):
             ops += [("C",), ("O",)]
